@@ -10,10 +10,10 @@ META = {
             'only required, non-excluded, size-admissible files; inventory = union of the Extract results with attribution. The model is tied to the Go engine by running '
             'both on generated scans (0 tolerated differences in error class, inode count, ordered Extract calls, sorted packages, statuses).',
     'note': 'Trusted: Lean kernel; the model/implementation tie is differential (generator reach is printed in the evidence); regexp, glob and go-git engines are parameters '
-            '(match sets / domain law). C01_subdir (sub-directory request = whole-tree scan restricted) is checked by the stream oracle only, not yet a theorem.',
+            '(match sets / domain law). The third sentence (requesting a reached sub-directory = the whole-tree scan restricted to it) is theorems C01_subdir_spec / C01_subdir (one root, DistinctNames, no stat faults at the two start points); on the implementation side it follows from the stream oracle calls = mustExtract holding for both kinds of scan.',
 }
 THEOREMS = ['Scalibr.Walk.C01_calls', 'Scalibr.Walk.C01_once', 'Scalibr.Walk.C01_only_required', 'Scalibr.Walk.C01_limit_shared',
-            'Scalibr.Walk.C01_inv', 'Scalibr.Walk.C01_inv_spec', 'Scalibr.Walk.C01_matcher_domainLaw', 'Scalibr.Walk.C01_table_matcher_domainLaw',
+            'Scalibr.Walk.C01_inv', 'Scalibr.Walk.C01_inv_spec', 'Scalibr.Walk.C01_subdir', 'Scalibr.Walk.C01_subdir_spec', 'Scalibr.Walk.C01_matcher_domainLaw', 'Scalibr.Walk.C01_table_matcher_domainLaw',
             'Scalibr.Walk.run_spec', 'Scalibr.Walk.walkNode_spec', 'Scalibr.Walk.mustFlat_nodup', 'Scalibr.Walk.runRoots_pkgs']
 
 
